@@ -12,8 +12,8 @@ RULE = ("same (schema, plain value) generator as C04; third values w = fake(S % 
         "scripts, the full conforming value, generic single-step perturbations of v and of the full "
         "value, spec-aware near-misses of S (min-1, max+1, len+-1, out-of-alphabet, extra/dropped "
         "keys) and float nudges inside / just outside the tolerance. Oracle: R accepts w implies S "
-        "accepts w. distinct = canonical JSON of (spec, value, w); non-trivial = w accepted by R and "
-        "different from v, or w rejected by R but accepted by S (shows the probe discriminates)")
+        "accepts w. distinct = canonical JSON of (spec, value); non-trivial = the case has a w accepted by R "
+        "and different from v, or a w rejected by R but accepted by S (shows the probes discriminate)")
 ASSUMPTIONS = ["acceptance by R is sampled through the generated probes, not enumerated"]
 BUDGET = {"quick": (1200, 4), "thorough": (20000, 16)}
 
@@ -77,18 +77,15 @@ def check(case, ctx):
         differs = substgen.carries(w, v, 0.0) is not None or substgen.carries(v, w, 0.0) is not None
         if r_ok and differs:
             n_acc += 1
-            if recipe is not None:
-                ctx.mark_nontrivial({"spec": spec, "value": case["value"], "w": recipe},
-                                    sample_class=("accepted-different", spec["t"]))
         if s_ok and not r_ok:
             n_disc += 1
-            if recipe is not None:
-                ctx.mark_nontrivial({"spec": spec, "value": case["value"], "w": recipe},
-                                    sample_class=("discriminating", spec["t"]))
     if n_acc:
         ctx.label("has-accepted-different-w")
     if n_disc:
         ctx.label("has-discriminating-w")
+    if n_acc or n_disc:
+        ctx.mark_nontrivial({"spec": spec, "value": case["value"]},
+                            sample_class=(bool(n_acc), bool(n_disc), spec["t"]))
     # does R keep a non-pinned part (partial dict, relaxed dict, optional key, float tolerance)?
     try:
         rspec = canon.spec_of(R)
